@@ -36,7 +36,7 @@ def universes():
     return res
 
 
-KIND_PROP = {"ext": "C32", "bread": "C30", "txn": "C24", "upd": "C12", "idx": "C15", "lim": "C33", "read": "C11", "truth3": "C23", "cmp": "C23", "arith": "C23", "order": "C20", "agg": "C21", "err": "C22", "part": "C19"}
+KIND_PROP = {"parity": "C34", "accept": "C34", "ext": "C32", "bread": "C30", "txn": "C24", "upd": "C12", "idx": "C15", "lim": "C33", "read": "C11", "truth3": "C23", "cmp": "C23", "arith": "C23", "order": "C20", "agg": "C21", "err": "C22", "part": "C19"}
 
 
 def cypher_sessions(tier, seed, u):
@@ -50,6 +50,7 @@ def cypher_sessions(tier, seed, u):
     ss += cyast.capi_sessions(tier, seed * 37 + 9)
     ss += cyast.bulk_sessions(tier, seed * 41 + 10)
     ss += ext_sessions(tier, seed * 43 + 11)
+    ss += cyast.parity_sessions(tier, seed * 47 + 12)
     return ss
 
 
@@ -110,6 +111,8 @@ def corrupt_for_selftest(lines, dirty_lines=()):
                 rows[0][1] = ["int", {"s": 1, "m": [77]}]
             elif k in ("read", "idx", "bread"):
                 rows.append(rows[0])
+            elif k == "parity" and e["res"].get("rowstrs"):
+                e["res"]["rowstrs"] = e["res"]["rowstrs"][1:]
             elif k == "ext" and e.get("graph", {}).get("nodes"):
                 e["graph"]["nodes"] = e["graph"]["nodes"][:-1]
             elif k == "upd" and e.get("graph", {}).get("nodes"):
@@ -210,6 +213,12 @@ def cypher_family(tier, seed, sessions=None, tag="main"):
                     nonempty[k] = nonempty.get(k, 0) + 1
             elif k in ("upd", "ext"):
                 if e["res"]["out"] == "rows":
+                    nonempty[k] = nonempty.get(k, 0) + 1
+            elif k == "parity":
+                if e["res"].get("rowstrs"):
+                    nonempty[k] = nonempty.get(k, 0) + 1
+            elif k == "accept":
+                if e["res_query"]["out"] != e["res_exec"]["out"]:
                     nonempty[k] = nonempty.get(k, 0) + 1
             elif k == "lim":
                 outs = {r["out"] for r in e.get("resl", [])}
@@ -504,3 +513,13 @@ def c32(tier, seed, replay):
     except Exception:
         pass
     return rc
+
+
+@reg("C34")
+def c34(tier, seed, replay):
+    return cy_prop("C34", tier, seed, replay, ["parity", "accept"],
+                   "identical databases are built by the same statements through each API (a database can be open in one handle only); "
+                   "rows are compared as bags of canonical texts (ints exact, floats bit-exact, nodes by id, relationships by "
+                   "(source, type, target)); EXPLAIN is not judged; statements both entry points reject as syntax errors are not judged",
+                   "value round-trips (64-bit integers, floats incl. NaN / infinities / -0.0, strings, nested lists and maps, nodes, "
+                   "relationships, parameters), generated read queries on 4 graphs, and 21 statement classes offered to both entry points")
